@@ -37,7 +37,11 @@ def gen(rng, tier):
         focus["conveyor"] = True
     if rng.random() < 0.4:
         focus["task_rules"] = True
-    return C.forward_spec(rng, tier, focus)
+    return C.maybe_history(rng, C.forward_spec(rng, tier, focus), 0.3)
+
+
+def extra_candidates(spec):
+    return C.history_candidates(spec)
 
 
 def used_space(st, placed):
@@ -62,6 +66,10 @@ def check_trace(res, tr):
         res.count("multi_task_component")
     nontrivial = False
     loc = {cid: None for cid in st.comp_order}  # location at the previous recorded instant
+    if rec.init_snap is not None:
+        for cid in st.comp_order:
+            loc[cid] = rec.init_snap["C"][cid][1]  # a continuation starts from the placements the first call left
+    off = getattr(tr, "log_offset", 0)
     for s in rec.steps:
         k = s.t
         for ph in ("updated", "allocated", "recorded"):
@@ -170,18 +178,20 @@ def check_trace(res, tr):
                 res.count("capacity_full_refusal")
                 nontrivial = True
     for c in tr.ix.comps:
-        for i, s in enumerate(steps[: len(c.placed_workplace_id_record)]):
+        rec_ = c.placed_workplace_id_record[off:]
+        for i, s in enumerate(steps[: len(rec_)]):
             live = s.ph["recorded"]["C"][c.ID][1]
-            if c.placed_workplace_id_record[i] != live:
+            if rec_[i] != live:
                 res.add("log", "C13.log_placed_workplace", "step %d: placed_workplace_id_record of %s is %r, live %r"
-                        % (s.t, c.ID, c.placed_workplace_id_record[i], live), s.t)
+                        % (s.t, c.ID, rec_[i], live), s.t)
                 break
     for wp in tr.ix.wps:
-        for i, s in enumerate(steps[: len(wp.placed_component_id_record)]):
+        rec_ = wp.placed_component_id_record[off:]
+        for i, s in enumerate(steps[: len(rec_)]):
             live = list(s.ph["recorded"]["P"][wp.ID])
-            if list(wp.placed_component_id_record[i]) != live:
+            if list(rec_[i] or []) != live:
                 res.add("log", "C13.log_placed_component", "step %d: placed_component_id_record of %s is %r, live %r"
-                        % (s.t, wp.ID, wp.placed_component_id_record[i], live), s.t)
+                        % (s.t, wp.ID, rec_[i], live), s.t)
                 break
     return nontrivial
 
